@@ -1173,6 +1173,10 @@ class Data(BaseCartesianData):
             for cid in self._world_component_ids[:]:
                 self.remove_component(cid)
                 self._world_component_ids.remove(cid)
+            # The links between pixel and world components refer to the world
+            # components that were just removed - they are re-generated below
+            # if there are still coordinates
+            self._coordinate_links = []
             if self.coords:
                 for i in range(ndim):
                     comp = CoordinateComponent(self, i, world=True)
